@@ -199,6 +199,8 @@ def script(spec):
     if spec['kind'] == 'split':
         for path, content in spec['files']:
             L.append('mkfile %s %s' % (hx(d + '/' + path), hx(fix(content))))
+            if path.startswith('sp2/') and zlib.crc32(path.encode()) % 2:
+                L.append('mkdir %s' % hx(d + '/sp1/' + path[4:]))     # a directory of the same name in the directory searched first
         L.append('chdir %s' % hx(d))
         L += lines
         L.append('init 0 %d 0' % sid)
